@@ -362,17 +362,29 @@ def view(I, x, *shape):
         ds = []
         for i, t in zip(idx, shape):
             ds.extend(digits(i, t))
-        old, p = [], 0
+        old, p, aligned = [], 0, True
         for sz in x.shape:
             grp, acc = [], 1
             while not zeq(I, acc, sz):
                 if p >= len(ds):
-                    raise Unsupported("view: cannot align index components with the source dimensions")
+                    aligned = False
+                    break
                 grp.append(ds[p])
                 acc = acc * ds[p][1]
                 p += 1
+            if not aligned:
+                break
             old.append(MR(grp) if len(grp) > 1 else (grp[0][0] if grp else 0))
-        # remaining digits must be of size 1
+        if not aligned:
+            # the index components do not line up with the source dimensions: decompose the row-major
+            # linear index arithmetically (nonlinear div/mod; may be left undecided by the solver)
+            I.path.notes.add("div/mod index decomposition used in view (components do not align)")
+            L = to_z3(MR(ds).linear())
+            old = []
+            for j, sz in enumerate(x.shape):
+                stride = zprod(x.shape[j + 1:])
+                q = L / to_z3(stride) if not (isinstance(stride, int) and stride == 1) else L
+                old.append(q % to_z3(sz) if j > 0 else q)
         return x.elem(old)
     return Tensor(shape, elem, x.dtype, new_comps)
 
